@@ -3,9 +3,9 @@
 package message
 
 import (
-	"sync"
 	"context"
 	"strconv"
+	"sync"
 
 	"github.com/ThreeDotsLabs/watermill"
 	"github.com/ThreeDotsLabs/watermill/zzverif/vrt"
@@ -271,4 +271,42 @@ func HarnessC09DecoratorsRunHandlers() {
 		vrt.Assert(bRuns == k, "a handler added later runs its own handler-level middlewares, and only it does")
 		mu.Unlock()
 	}
+}
+
+// HarnessC09ReAdd: a handler is replaced on a running router (Stop, Stopped(), AddHandler under the same name, its
+// own middleware, RunHandlers): the replacement runs the router-level middlewares plus its own - not those the
+// stopped handler had registered for itself.
+func HarnessC09ReAdd() {
+	r, _ := NewRouter(RouterConfig{}, watermill.NopLogger{})
+	r.isRunning = true
+	tr := &c09Trace{}
+	ctx, cancel := context.WithCancel(context.Background())
+	defer cancel()
+	sub1, sub2 := &countingSubscriber{}, &countingSubscriber{}
+	hf := func(m *Message) error { tr.ev = append(tr.ev, 0); return nil }
+	r.AddMiddleware(c09Rec(tr, 0)) // router level
+	h1 := r.AddNoPublisherHandler("h", "in1", sub1, hf)
+	h1.AddMiddleware(c09Rec(tr, 1)) // the first handler's own
+	vrt.Assert(r.RunHandlers(ctx) == nil, "first handler started")
+	m1 := NewMessage("m1", nil)
+	sub1.chans[0] <- m1
+	<-m1.Acked()
+	vrt.Assert(len(tr.ev) == 5 && tr.ev[0] == 1 && tr.ev[1] == 2 && tr.ev[2] == 0 && tr.ev[3] == -2 && tr.ev[4] == -1, "the first handler runs the router-level middleware and its own, earliest outermost")
+	h1.Stop()
+	<-h1.Stopped()
+	tr.ev = nil
+	h2 := r.AddNoPublisherHandler("h", "in2", sub2, hf)
+	if vrt.Bool("replacement.has.a.middleware.of.its.own") {
+		h2.AddMiddleware(c09Rec(tr, 2))
+	}
+	vrt.Assert(r.RunHandlers(ctx) == nil, "replacement started")
+	<-h2.Started()
+	m2 := NewMessage("m2", nil)
+	sub2.chans[0] <- m2
+	<-m2.Acked()
+	for _, e := range tr.ev {
+		vrt.Assert(e != 2 && e != -2, "each handler runs exactly the router-level middlewares plus its own, and never another handler's (here: those of the handler it replaced)")
+	}
+	vrt.Assert(len(tr.ev) >= 3 && tr.ev[0] == 1 && tr.ev[len(tr.ev)-1] == -1, "the router-level middleware still wraps the replacement")
+	vrt.Observe("events", len(tr.ev))
 }
